@@ -57,22 +57,42 @@ THEOREMS = [
 # head of the NEXT `Check` output ("c10_xxx : ...") as one more axiom entry; the pinned names are therefore allowed here.
 # The genuine axioms are exactly the three listed above (Coq's classical real numbers).
 AXIOM_ALLOW += [n for n, _ in THEOREMS]
-SHARD = 2500
+SHARD = 1900      # the quick tier (about 7 600 cases) makes four equal batch files, one per coqc worker
 RULE = ("integer lattice configurations (coordinates in [-20,20], radii 1..20) for line/ll/cl/cc/position/contains; exact "
         "Pythagorean tangencies (3-4-5, 5-12-13, 8-15-17, scaled, all sign/axis variants, also axis-aligned) for circle-circle "
         "(inside and outside) and circle-line; the same tangencies moved by a Pythagorean rotation, a real scale and a real "
         "translation; random real-valued configurations of magnitude 1..1e3 with well-separated defining points; circles of "
         "radius ratio up to 1e3:1 and circle-line pairs at 20..1e4 EPS on either side of a tangency; constructed "
-        "near-border points for position/contains (relative offsets 0, 3e-11, 5e-11, 2e-8, 1e-7, ...). "
-        "non-trivial = an intersection op that returned at least one point, or a position/contains query within 1e-6 of the border")
-TRUSTED = ["executor harness/crates/c10 (calls Line::new/between/contains, Circle::position, intersect_ll/cl/cc and prints bit patterns)",
+        "near-border points for position/contains (relative offsets 0, 3e-11, 5e-11, 2e-8, 1e-7, ...); "
+        "cc-ratio: clear crossings (centre distance ra + t rb, |t| <= 0.95) and near-tangencies of a circle of radius 100..1024 "
+        "with one of radius 2^-10..0.05 (ratio up to 1e6:1), both argument orders, every coordinate within 1024; "
+        "band-*: every tolerance comparison (position, contains, circle-line, outer and inner circle tangency, nearly identical "
+        "circles, parallel/intersect_ll) with its margin at 0.3, 0.7, 0.9, 1.1, 1.5, 3, 7 EPS on both sides, placed with exact "
+        "data (lattice centres, Pythagorean directions): the specification accepts either answer there, model_check pins the "
+        "value of the library's EPS; coin-*: exact coincidences (concentric circles with equal and different radii, the centre "
+        "and its neighbours by 1..3 ulp as the query of position, lines exactly through the centre in both orientations and in "
+        "coefficient form, two lines sharing a defining point, a defining point as the query of contains/dist); small-*: radii in "
+        "[2^-10, 0.05) and defining points 2^-10 .. 3e-4 |coordinate| apart; coef-*: Line::new with real coefficients "
+        "(unit normal times 1, 1+-1e-7, 1+-1e-12, 1e-3, 1e3 or a log-uniform scale) and the struct literal Line {a,b,c} with a "
+        "unit normal in line/ll/cl/contains/dist/parallel, Line::default() and zero-normal literals as out-of-quantifier cases "
+        "decided by model_check alone; the entry points Line::dist, util::dist, util::parallel and the Point operations "
+        "(+ and - in all four receiver forms, * and / by a scalar, dp, cp, slen, len, From, ==, Default) on their own inputs and on "
+        "the inputs of a third of the ll / contains cases; the generated cases are shuffled so that the batch files are balanced. "
+        "non-trivial = an intersection op that returned at least one point, or a position/contains/parallel query within 1e-6 of the border")
+TRUSTED = ["executor harness/crates/c10 (calls Line::new/between/dist/contains/ort and the struct literal, Circle::position, "
+           "intersect_ll/cl/cc, util::dist/parallel, the Point operators and prints bit patterns; its internal consistency checks "
+           "print X: receiver forms of + and -, From, ==, Default, ort, reverse/count/size_hint/partial traversal of the result iterators)",
            "checks/c10.py (case generator, Coq term printer)",
            "Coq primitive floats (vm_compute) implement IEEE-754 binary64 add/sub/mul/div/sqrt as the hardware running the Rust code does"]
 ASSUMPTIONS = ["theorems are about the real-number instance of the model; the binary64 instance differs by rounding, which is "
                "NOT proved (c10_rounding_partial): the 1e-7 bound is decided by search on the implementation and by the exact "
                "dyadic spec_check on every sampled case",
-               "spec_check quantifier: |coordinates| <= 1024, radii in [2^-10, 1024], defining points of a line at least 2^-10 apart; "
+               "spec_check quantifier: |coordinates| <= 1024, radii in [2^-10, 1024], defining points of a line at least 2^-10 apart, "
+               "line coefficients within 1024 with a^2+b^2 >= 2^-20, a struct-literal line has a unit normal (|a^2+b^2-1| <= 2^-48), "
+               "scalar factor of a Point in [2^-10, 1024]; "
                "the on-both-lines clause of intersect_ll is required when |sin(angle)| >= 1e-3",
+               "Line::dist / util::dist are required to be non-negative and within 1e-7 of the exact distance; the Point operations "
+               "within 2^-50 relative to the magnitude of their exact terms",
                "kind is mandatory farther than 1e-8 (10 EPS) from a boundary between kinds and within 1e-10 of an exact tangency"]
 
 
@@ -85,6 +105,7 @@ def unbits(s):
 
 
 def ls_tokens(l):
+    """line spec: ["B",x1,y1,x2,y2] Line::between, ["N",a,b,c] Line::new, ["R",a,b,c] struct literal, ["Z"] Line::default()"""
     return [l[0]] + [str(bits(v)) for v in l[1:]]
 
 
@@ -101,8 +122,12 @@ def harness_line(c):
         return " ".join(["cc"] + a)
     if op == "pos":
         return " ".join(["pos"] + a)
-    if op == "con":
-        return " ".join(["con"] + ls_tokens(c["l1"]) + a)
+    if op in ("con", "ldist"):
+        return " ".join([op] + ls_tokens(c["l1"]) + a)
+    if op == "par":
+        return " ".join(["par"] + ls_tokens(c["l1"]) + ls_tokens(c["l2"]))
+    if op in ("dist", "pt"):
+        return " ".join([op] + a)
     raise ValueError(op)
 
 
@@ -121,7 +146,9 @@ def zs(vals):
 
 
 def ls_term(l):
-    return "(%s %s)" % ("LB" if l[0] == "B" else "LN", zs(l[1:]))
+    if l[0] == "Z":
+        return "(LR 0 0 0)"
+    return "(%s %s)" % ({"B": "LB", "N": "LN", "R": "LR"}[l[0]], zs(l[1:]))
 
 
 def obs_term(obs):
@@ -150,6 +177,12 @@ def obs_term(obs):
         return "(OBool %s)" % ("true" if k == "1" else "false")
     if k == "L":
         return "(OLine %s)" % nums
+    if k == "V":
+        if len(t) - 1 not in (1, 12):
+            return "OFail"
+        return "(OVals (v%d %s))" % (len(t) - 1, " ".join(flit(unbits(x)) for x in t[1:]))
+    if k == "X":
+        return "OFail"
     raise ValueError(obs)
 
 
@@ -168,6 +201,14 @@ def coq_term(c, obs, profile):
         return "(CPos %s %s)" % (zs(c["a"]), o)
     if op == "con":
         return "(CCon %s %s %s)" % (ls_term(c["l1"]), zs(c["a"]), o)
+    if op == "ldist":
+        return "(CLDist %s %s %s)" % (ls_term(c["l1"]), zs(c["a"]), o)
+    if op == "dist":
+        return "(CDist %s %s)" % (zs(c["a"]), o)
+    if op == "par":
+        return "(CPar %s %s %s)" % (ls_term(c["l1"]), ls_term(c["l2"]), o)
+    if op == "pt":
+        return "(CPt %s %s)" % (zs(c["a"]), o)
     raise ValueError(op)
 
 
@@ -175,8 +216,8 @@ def nontrivial(c, obs):
     k = obs.split()[0]
     if c["op"] in ("ll", "cl", "cc"):
         return k in ("S", "T", "TI", "TO", "I")
-    if c["op"] in ("pos", "con"):
-        return c.get("tag", "").startswith("near")
+    if c["op"] in ("pos", "con", "par"):
+        return c.get("tag", "").startswith(("near", "band"))
     return False
 
 
@@ -463,6 +504,46 @@ def near_tangent_cases(rng, n):
     return cs
 
 
+def cc_ratio_cases(rng, n):
+    """clear crossings at an extreme radius ratio (1e4 .. 1e6): a large circle and a tiny one whose centre lies at
+    d = ra + t * rb, |t| <= 0.95, from the large centre (the corner of the quantifier where the crossing branch of
+    intersect_cc lost the small circle's scale before commit 5d73592), plus the same pairs at 2 .. 1e4 EPS from the
+    outer / inner tangency"""
+    cs = []
+    EPS = 1e-9
+    while len(cs) < n:
+        ra = rng.choice([1000.0, 1024.0]) if rng.chance(1, 2) else 100.0 + 924.0 * u01(rng)
+        rb = rng.choice([2.0 ** -10, 0.001, 0.002, 0.01]) if rng.chance(1, 2) else 2.0 ** -10 + (0.05 - 2.0 ** -10) * u01(rng)
+        if rng.chance(1, 2):
+            p, q, h = rng.choice(DIRS)
+            co, si = p / h, q / h
+        else:
+            ang = 2 * math.pi * u01(rng)
+            co, si = math.cos(ang), math.sin(ang)
+        k = rng.below(8)
+        if k < 6:
+            t = (2 * u01(rng) - 1) * 0.95
+            d = ra + t * rb
+            tag = "cc-ratio"
+        else:
+            delta = rng.choice([2, 5, 20, 100, 10000]) * EPS * rng.choice([1, -1])
+            d = (ra + rb - delta) if k == 6 else (ra - rb + delta)
+            tag = "cc-ratio-near-%s-%s" % ("out" if k == 6 else "in", "cross" if delta > 0 else "apart")
+        # the large centre: somewhere on the segment that keeps both centres inside the box, plus a sideways shift
+        s = u01(rng) if rng.chance(3, 4) else rng.choice([0.0, 0.5, 1.0])
+        w = (2 * u01(rng) - 1) * 300.0 if rng.chance(1, 2) else 0.0
+        ax, ay = -s * d * co - w * si, -s * d * si + w * co
+        if rng.chance(1, 4):
+            ax, ay = float(round(ax)), float(round(ay))
+        a = [ax, ay, ra, ax + d * co, ay + d * si, rb]
+        if max(abs(v) for v in a) > 1024:
+            continue
+        if rng.chance(1, 2):
+            a = a[3:] + a[:3]
+        cs.append({"op": "cc", "tag": tag, "a": a})
+    return cs
+
+
 def egcd_py(a, b):
     if b == 0:
         return (1, 0) if a >= 0 else (-1, 0)
@@ -506,6 +587,441 @@ def near_parallel_cases(rng, n):
     return cs
 
 
+EPS = 1e-9
+# multiples of EPS strictly between the specification's inner (0.1 EPS) and outer (10 EPS) margin: only the value of the
+# library's tolerance decides these cases (spec_check accepts either answer, model_check pins the code's answer)
+BAND = [0.3, 0.7, 0.9, 1.1, 1.5, 3.0, 7.0]
+BAND_OFFS = [m * EPS * sg for m in BAND for sg in (1, -1)]
+N_BAND_FAMILIES = 7
+
+
+def band_cases(rng, n):
+    """every tolerance comparison of the library with its margin inside (1e-10, 1e-8), on both sides of +-EPS.  Exact
+    data: lattice centres, Pythagorean / axis directions, so the binary64 margin is the intended one up to ~1e-13."""
+    cs = []
+    i = 0
+    while len(cs) < n:
+        fam = i % N_BAND_FAMILIES
+        off = BAND_OFFS[(i // N_BAND_FAMILIES) % len(BAND_OFFS)]
+        i += 1
+        p, q, h = rng.choice(DIRS)
+        co, si = p / h, q / h                                   # unit vector n; t = (-si, co) is perpendicular
+        cx, cy = float(rng.range(-20, 20)), float(rng.range(-20, 20))
+        if fam == 0:
+            r = rng.choice([0.01, 0.5, 1.0, 3.0, 100.0, 700.0])
+            rr = r * (1.0 + off)
+            cs.append({"op": "pos", "tag": "band-pos", "a": [cx, cy, r, cx + rr * co, cy + rr * si]})
+        elif fam == 1:
+            # line through (cx, cy) with normal n, point at signed distance off from it
+            m = rng.choice([-3.0, -1.0, 0.0, 0.5, 1.0, 2.0, 7.0])
+            pt = [cx - m * q + off * co, cy + m * p + off * si]
+            form = rng.below(3)
+            if form == 0:
+                j = rng.choice([1, -1, 2, 3])
+                l = ["B", cx, cy, cx - j * q, cy + j * p]
+            elif form == 1:
+                sc = rng.choice([1, -1, 2])
+                l = ["N", float(sc * p), float(sc * q), float(-sc * (p * cx + q * cy))]
+            else:
+                l = ["R", co, si, -(co * cx + si * cy)]
+            cs.append({"op": "con", "tag": "band-con", "l1": l, "a": pt})
+        elif fam == 2:
+            r = rng.choice([0.05, 1.0, 3.0, 10.0, 100.0, 900.0])
+            d = r + off
+            x0, y0 = cx + d * co, cy + d * si
+            form = rng.below(3)
+            if form == 0:
+                L = rng.choice([1.0, 2.5, 10.0])
+                l = ["B", x0 + L * si, y0 - L * co, x0 - L * si, y0 + L * co]
+                if rng.chance(1, 2):
+                    l = ["B", l[3], l[4], l[1], l[2]]
+            elif form == 1:
+                sc = rng.choice([1, -1, 2])
+                l = ["N", float(sc * p), float(sc * q), -sc * ((p * cx + q * cy) + h * d)]
+            else:
+                sg = rng.choice([1.0, -1.0])
+                l = ["R", sg * co, sg * si, -sg * ((co * cx + si * cy) + d)]
+            if max(abs(v) for v in l[1:]) > 1024:
+                continue
+            cs.append({"op": "cl", "tag": "band-cl", "a": [cx, cy, r], "l1": l})
+        elif fam in (3, 4):
+            ra = rng.choice([1.0, 3.0, 10.0, 100.0, 900.0])
+            rb = ra / rng.choice([1.0, 2.0, 10.0, 100.0, 1000.0, 1e4, 1e5])
+            if rb < 2.0 ** -10:
+                continue
+            if fam == 3:
+                d = ra + rb - off
+            else:
+                if ra - rb < 0.01:
+                    continue
+                d = ra - rb + off
+            a = [cx, cy, ra, cx + d * co, cy + d * si, rb]
+            if max(abs(v) for v in a) > 1024:
+                continue
+            if rng.chance(1, 2):
+                a = a[3:] + a[:3]
+            cs.append({"op": "cc", "tag": "band-cc-out" if fam == 3 else "band-cc-in", "a": a})
+        elif fam == 5:
+            # nearly identical circles: centre distance and radius difference each 0 .. 2 EPS
+            d = rng.choice([0.0, 0.5, 0.9, 1.1, 2.0]) * EPS
+            dr = rng.choice([0.0, 0.5, 0.9, 1.1, 2.0]) * EPS * rng.choice([1, -1])
+            ra = rng.choice([0.01, 1.0, 5.0, 100.0])
+            if rng.chance(1, 3):
+                cx, cy = 0.0, 0.0
+            cs.append({"op": "cc", "tag": "band-same", "a": [cx, cy, ra, cx + d * co, cy + d * si, ra - dr]})
+        else:
+            # two lines whose unit normals have cross product off (|sin| = 0.3 .. 7 EPS): ll and parallel
+            j = rng.choice([1, 2, -1, 3])
+            cs_ = math.sqrt(1 - off * off)
+            ex, ey = p * cs_ - q * off, p * off + q * cs_
+            vx, vy = float(rng.range(-20, 20)), float(rng.range(-20, 20))
+            k = rng.choice([1.0, 0.5, 2.0])
+            l1 = ["B", cx, cy, cx + j * p, cy + j * q]
+            l2 = ["B", vx, vy, vx + k * ex, vy + k * ey]
+            if rng.chance(1, 2):
+                l1, l2 = l2, l1
+            cs.append({"op": "ll", "tag": "band-ll", "l1": l1, "l2": l2})
+            cs.append({"op": "par", "tag": "band-par", "l1": l1, "l2": l2})
+    return cs
+
+
+def ulp_step(x, k):
+    """x moved by k units in the last place"""
+    for _ in range(abs(k)):
+        x = math.nextafter(x, math.inf if k > 0 else -math.inf)
+    return x
+
+
+def coincidence_cases(rng, n):
+    """exact coincidences (a distance that is exactly 0): concentric circles, the centre itself as the query point, a line
+    through the centre, lines sharing a defining point, a defining point as the query of contains / dist"""
+    cs = []
+    i = 0
+    while len(cs) < n:
+        fam = i % 10
+        i += 1
+        real = rng.chance(1, 2)
+        m = rng.choice([1.0, 10.0, 100.0, 1000.0])
+        if real:
+            cx, cy = (2 * u01(rng) - 1) * m, (2 * u01(rng) - 1) * m
+            r = (0.05 + 0.95 * u01(rng)) * m
+        else:
+            cx, cy, r = float(rng.range(-20, 20)), float(rng.range(-20, 20)), float(rng.range(1, 20))
+        p, q, h = rng.choice(DIRS)
+        if fam == 0:
+            cs.append({"op": "cc", "tag": "coin-same", "a": [cx, cy, r, cx, cy, r]})
+        elif fam == 1:
+            r2 = r * rng.choice([0.5, 0.25, 0.9, 0.999]) if real else float(rng.range(1, 20))
+            a = [cx, cy, r, cx, cy, r2]
+            if rng.chance(1, 2):
+                a = a[3:] + a[:3]
+            cs.append({"op": "cc", "tag": "coin-concentric", "a": a})
+        elif fam == 2:
+            cs.append({"op": "pos", "tag": "coin-centre", "a": [cx, cy, r, cx, cy]})
+        elif fam == 3:
+            k = rng.choice([1, -1, 2, -3])
+            a = [cx, cy, r, ulp_step(cx, k), cy] if rng.chance(1, 2) else [cx, cy, r, cx, ulp_step(cy, k)]
+            cs.append({"op": "pos", "tag": "coin-centre-ulp", "a": a})
+        elif fam == 4:
+            # a line exactly through the centre (lattice: exact; real: the centre is a defining point)
+            if real:
+                ang = 2 * math.pi * u01(rng)
+                L = (0.2 + u01(rng)) * m
+                l = ["B", cx, cy, cx + L * math.cos(ang), cy + L * math.sin(ang)]
+                if max(abs(v) for v in l[1:]) > 1024:
+                    continue
+            else:
+                j1, j2 = rng.choice([(0, 1), (0, -2), (-1, 1), (1, 3), (-2, -1)])
+                l = ["B", cx + j1 * p, cy + j1 * q, cx + j2 * p, cy + j2 * q]
+            if rng.chance(1, 2):
+                l = ["B", l[3], l[4], l[1], l[2]]
+            cs.append({"op": "cl", "tag": "coin-through-centre", "a": [cx, cy, r], "l1": l})
+        elif fam == 5:
+            # coefficient form through a lattice centre: c = -(a cx + b cy) exactly
+            cx, cy, r = float(rng.range(-20, 20)), float(rng.range(-20, 20)), float(rng.range(1, 20))
+            sc = rng.choice([1, -1, 2, -3])
+            l = ["N", float(sc * p), float(sc * q), float(-sc * (p * cx + q * cy))]
+            cs.append({"op": "cl", "tag": "coin-through-centre", "a": [cx, cy, r], "l1": l})
+        elif fam == 6:
+            co = lambda: (2 * u01(rng) - 1) * m if real else float(rng.range(-20, 20))
+            u, v, w = (cx, cy), (co(), co()), (co(), co())
+            if v == u or w == u or (v[0] - u[0]) * (w[1] - u[1]) == (v[1] - u[1]) * (w[0] - u[0]):
+                continue
+            if real and min(math.hypot(v[0] - u[0], v[1] - u[1]), math.hypot(w[0] - u[0], w[1] - u[1])) < 0.05 * m:
+                continue
+            l1 = ["B", u[0], u[1], v[0], v[1]] if rng.chance(1, 2) else ["B", v[0], v[1], u[0], u[1]]
+            l2 = ["B", u[0], u[1], w[0], w[1]] if rng.chance(1, 2) else ["B", w[0], w[1], u[0], u[1]]
+            cs.append({"op": "ll", "tag": "coin-shared-point", "l1": l1, "l2": l2})
+        elif fam == 7:
+            l = real_line(rng, m) if real else lat_line(rng)
+            if l[0] != "B":
+                continue
+            pt = [l[1], l[2]] if rng.chance(1, 2) else [l[3], l[4]]
+            cs.append({"op": rng.choice(["con", "ldist"]), "tag": "coin-defining-point", "l1": l, "a": pt})
+        elif fam == 8:
+            cs.append({"op": "dist", "tag": "coin-same-point", "a": [cx, cy, cx, cy]})
+        else:
+            k = rng.choice([2.0, 0.5, -1.0, 3.0, 0.1])
+            b = [cx, cy] if rng.chance(1, 2) else [ulp_step(cx, rng.choice([1, -1])), cy]
+            cs.append({"op": "pt", "tag": "coin-same-point", "a": [cx, cy, b[0], b[1], k]})
+    return cs
+
+
+def small_cases(rng, n):
+    """the small end of the quantifier: radii in [2^-10, 0.05), defining points of a line 2^-10 .. 3e-4 |coordinate| apart"""
+    cs = []
+    i = 0
+    lo = 2.0 ** -10
+    def short_line(m):
+        ux, uy = (2 * u01(rng) - 1) * m, (2 * u01(rng) - 1) * m
+        L = rng.choice([lo * 1.01, lo * 2, lo * 4]) if rng.chance(1, 2) else lo * 1.01 + u01(rng) * max(0.0, 3e-4 * m - lo)
+        ang = 2 * math.pi * u01(rng)
+        return ["B", ux, uy, ux + L * math.cos(ang), uy + L * math.sin(ang)]
+    while len(cs) < n:
+        fam = i % 6
+        i += 1
+        m = rng.choice([1.0, 10.0, 100.0, 1000.0])
+        cx, cy = (2 * u01(rng) - 1) * m, (2 * u01(rng) - 1) * m
+        r = rng.choice([lo, 0.001, 0.002, 0.01]) if rng.chance(1, 2) else lo + (0.05 - lo) * u01(rng)
+        ang = 2 * math.pi * u01(rng)
+        nx, ny = math.cos(ang), math.sin(ang)
+        if fam == 0:
+            # line through the small disc at t * r from the centre, or clearly outside
+            t = (2 * u01(rng) - 1) * 0.95 if rng.chance(3, 4) else rng.choice([1.5, -1.5, 3.0])
+            x0, y0 = cx + t * r * nx, cy + t * r * ny
+            L = rng.choice([lo, 0.01, 1.0, 10.0]) * (0.6 + u01(rng))
+            l = ["B", x0 - L * ny, y0 + L * nx, x0 + L * ny, y0 - L * nx]
+            if max(abs(v) for v in l[1:]) > 1024:
+                continue
+            cs.append({"op": "cl", "tag": "small-cl", "a": [cx, cy, r], "l1": l})
+        elif fam == 1:
+            t = rng.choice([0.0, 3e-11, -3e-11, 2e-8, -2e-8, 1e-6, -1e-6, 1e-3, -1e-3, 0.5, -0.5, 1.0])
+            rr = r * (1.0 + t)
+            cs.append({"op": "pos", "tag": "small-pos", "a": [cx, cy, r, cx + rr * nx, cy + rr * ny]})
+        elif fam == 2:
+            # two small circles, or a small and a moderate one, crossing
+            r2 = r * (0.2 + 1.6 * u01(rng)) if rng.chance(1, 2) else (0.05 + u01(rng)) * min(m, 50.0)
+            if r2 < lo:
+                continue
+            dlo, dhi = abs(r - r2), r + r2
+            d = dlo + (0.05 + 0.9 * u01(rng)) * (dhi - dlo)
+            a = [cx, cy, r, cx + d * nx, cy + d * ny, r2]
+            if max(abs(v) for v in a) > 1024:
+                continue
+            if rng.chance(1, 2):
+                a = a[3:] + a[:3]
+            cs.append({"op": "cc", "tag": "small-cc", "a": a})
+        elif fam == 3:
+            l1 = short_line(m)
+            l2 = short_line(m) if rng.chance(1, 2) else real_line(rng, m)
+            d1 = (l1[3] - l1[1], l1[4] - l1[2])
+            d2 = (l2[3] - l2[1], l2[4] - l2[2])
+            sin = (d1[0] * d2[1] - d1[1] * d2[0]) / (math.hypot(*d1) * math.hypot(*d2))
+            if abs(sin) < 0.05 or max(abs(v) for v in l1[1:] + l2[1:]) > 1024:
+                continue
+            if rng.chance(1, 2):
+                l1, l2 = l2, l1
+            cs.append({"op": "ll", "tag": "small-ll", "l1": l1, "l2": l2})
+        elif fam == 4:
+            l = short_line(m)
+            if max(abs(v) for v in l[1:]) > 1024:
+                continue
+            cs.append({"op": "line", "tag": "small-line", "l1": l})
+        else:
+            l = short_line(m)
+            ux, uy, vx, vy = l[1:]
+            L = math.hypot(vx - ux, vy - uy)
+            tx, ty = (vx - ux) / L, (vy - uy) / L
+            s_ = rng.choice([0.0, 0.5, 1.0, -1.0, 3.0])
+            off = rng.choice([0.0, 5e-8, -5e-8, 1e-6, 1e-3, -0.5])
+            pt = [ux + s_ * (vx - ux) - off * ty, uy + s_ * (vy - uy) + off * tx]
+            if max(abs(v) for v in l[1:] + pt) > 1024:
+                continue
+            cs.append({"op": rng.choice(["con", "ldist"]), "tag": "small-con", "l1": l, "a": pt})
+    return cs
+
+
+def coef_line(rng):
+    """a line given by real coefficients, returned with a unit normal (nx, ny) and offset c0 of the same line
+    (nx x + ny y + c0 = 0): ["N", s nx, s ny, s c0] for a scale s, or the struct literal ["R", nx, ny, c0]"""
+    if rng.chance(1, 2):
+        p, q, h = rng.choice(DIRS)
+        nx, ny = p / h, q / h
+    else:
+        ang = 2 * math.pi * u01(rng)
+        nx, ny = math.cos(ang), math.sin(ang)
+    c0 = (2 * u01(rng) - 1) * rng.choice([1.0, 10.0, 100.0, 1000.0])
+    if rng.chance(1, 3):
+        return ["R", nx, ny, c0], (nx, ny, c0)
+    s = rng.choice([1.0, 1.0 + 1e-7, 1.0 - 1e-7, 1.0 + 1e-12, 1.0 - 1e-12, 1e-3, 1e3]) if rng.chance(2, 3) \
+        else 10.0 ** (4 * u01(rng) - 2)
+    if rng.chance(1, 2):
+        s = -s
+    if abs(s * c0) > 1024:
+        c0 = c0 / abs(s)
+    return ["N", s * nx, s * ny, s * c0], (nx, ny, c0)
+
+
+def coefficient_cases(rng, n):
+    """lines given by real-valued coefficients (Line::new with nearly-unit, tiny, large and arbitrary scale) and by the
+    struct literal with a unit normal, in every operation; Line::default() / a zero normal as out-of-quantifier cases
+    (decided by model_check only)"""
+    cs = []
+    i = 0
+    while len(cs) < n:
+        fam = i % 8
+        i += 1
+        l, (nx, ny, c0) = coef_line(rng)
+        # a point of the line: foot of the origin plus a step along the line
+        tau = (2 * u01(rng) - 1) * rng.choice([1.0, 10.0, 100.0])
+        x0, y0 = -c0 * nx - tau * ny, -c0 * ny + tau * nx
+        if max(abs(x0), abs(y0)) > 900:
+            continue
+        if fam == 0:
+            cs.append({"op": "line", "tag": "coef-line", "l1": l})
+        elif fam == 1:
+            off = rng.choice([0.0, 3e-11, -3e-11, 5e-8, -5e-8, 1e-6, 1e-3, -0.5] + [BAND_OFFS[rng.below(len(BAND_OFFS))]])
+            cs.append({"op": rng.choice(["con", "ldist"]), "tag": "coef-con", "l1": l, "a": [x0 + off * nx, y0 + off * ny]})
+        elif fam in (2, 3):
+            r = rng.choice([0.05, 1.0, 3.0, 10.0, 100.0]) if rng.chance(1, 2) else 0.05 + 100 * u01(rng)
+            if fam == 2:
+                d = (2 * u01(rng) - 1) * 0.95 * r
+                tag = "coef-cl-cross"
+            else:
+                delta = rng.choice([0.0, 20, -20, 1000, -1000, 1e6, -1e6]) * EPS
+                d = (r + delta) * rng.choice([1, -1])
+                tag = "coef-cl-near"
+            cx, cy = x0 + d * nx, y0 + d * ny
+            if max(abs(cx), abs(cy)) > 1024:
+                continue
+            cs.append({"op": "cl", "tag": tag, "a": [cx, cy, r], "l1": l})
+        elif fam == 4:
+            m = rng.choice([1.0, 10.0, 100.0])
+            while True:
+                l2 = real_line(rng, m) if rng.chance(1, 2) else coef_line(rng)[0]
+                if l2[0] == "B":
+                    dx, dy = l2[3] - l2[1], l2[4] - l2[2]
+                    n2x, n2y = -dy / math.hypot(dx, dy), dx / math.hypot(dx, dy)
+                else:
+                    k_ = math.hypot(l2[1], l2[2])
+                    n2x, n2y = l2[1] / k_, l2[2] / k_
+                if abs(nx * n2y - ny * n2x) >= 0.05:
+                    break
+            l1 = l
+            if rng.chance(1, 2):
+                l1, l2 = l2, l1
+            cs.append({"op": rng.choice(["ll", "ll", "par"]), "tag": "coef-ll", "l1": l1, "l2": l2})
+        elif fam == 5:
+            # the same line twice in different representations, or a parallel one: exactly / nearly parallel normals
+            sh = rng.choice([0.0, 1.0, -2.5])
+            sc = rng.choice([1.0, -1.0, 2.0, 1e-3])
+            l2 = ["N", sc * nx, sc * ny, sc * (c0 + sh)]
+            cs.append({"op": rng.choice(["ll", "par"]), "tag": "coef-par", "l1": l, "l2": l2})
+        elif fam == 6:
+            # out of the quantifier: zero normal (Line::default() or a literal); only the model decides
+            z = ["Z"] if rng.chance(1, 2) else ["R", 0.0, 0.0, rng.choice([0.0, 1.0, -2.0, 1e-10])]
+            k = rng.below(5)
+            r = rng.choice([1.0, 2.0, 1e-10 + 1.0])
+            if k == 0:
+                cs.append({"op": "line", "tag": "coef-zero", "l1": z})
+            elif k == 1:
+                cs.append({"op": "cl", "tag": "coef-zero", "a": [x0, y0, r], "l1": z})
+            elif k == 2:
+                cs.append({"op": rng.choice(["con", "ldist"]), "tag": "coef-zero", "l1": z, "a": [x0, y0]})
+            else:
+                l1, l2 = (z, l) if rng.chance(1, 2) else (l, z)
+                cs.append({"op": rng.choice(["ll", "par"]), "tag": "coef-zero", "l1": l1, "l2": l2})
+        else:
+            # Line::new fed with the coefficients of a line through two lattice points, rescaled by a real factor
+            ux, uy, vx, vy = rng.range(-20, 20), rng.range(-20, 20), rng.range(-20, 20), rng.range(-20, 20)
+            if (ux, uy) == (vx, vy):
+                continue
+            a_, b_ = uy - vy, vx - ux
+            c_ = -(a_ * ux + b_ * uy)
+            sc = rng.choice([1.0, 0.5, 0.1, 1e-3, 7.3, 1.0 / 3.0])
+            ln = ["N", sc * a_, sc * b_, sc * c_]
+            if max(abs(v) for v in ln[1:]) > 1024:
+                continue
+            j = rng.range(-3, 3)
+            cs.append({"op": rng.choice(["con", "ldist", "line"]), "tag": "coef-lat", "l1": ln,
+                       "a": [float(ux + j * (vx - ux)), float(uy + j * (vy - uy))]})
+    for c in cs:
+        if c["op"] == "line":
+            c.pop("a", None)
+    return cs
+
+
+def point_op_cases(rng, n):
+    """the Point operations (all receiver forms of + and -, * and / by a scalar, dp, cp, slen, len, conversions,
+    equality), util::dist and Line::dist as entry points of their own"""
+    cs = []
+    i = 0
+    while len(cs) < n:
+        fam = i % 4
+        i += 1
+        m = rng.choice([1.0, 10.0, 100.0, 1000.0])
+        co = lambda: (2 * u01(rng) - 1) * m
+        if fam == 0:
+            if rng.chance(1, 2):
+                a = [float(rng.range(-20, 20)) for _ in range(4)]
+                k = float(rng.choice([1, 2, -1, 3, 4, 5, -7, 10]))
+            else:
+                a = [co(), co(), co(), co()]
+                k = rng.choice([2.0, 0.5, 3.0, 0.1, -1.0, 7.3, 1e-3, 1000.0]) if rng.chance(1, 2) \
+                    else (0.001 + u01(rng)) * rng.choice([1.0, -1.0, 100.0])
+            j = rng.below(6)
+            if j == 0:
+                a[2], a[3] = a[0], a[1]
+            elif j == 1:
+                a[2], a[3] = a[0] + 1e-10, a[1]
+            elif j == 2:
+                a[2], a[3] = -a[1], a[0]            # perpendicular: dp cancels
+            elif j == 3:
+                a[2], a[3] = 3 * a[0], 3 * a[1]     # collinear: cp cancels
+            cs.append({"op": "pt", "tag": "ptops", "a": a + [k]})
+        elif fam == 1:
+            x, y = co(), co()
+            j = rng.below(4)
+            if j == 0:
+                b = [co(), co()]
+            elif j == 1:
+                ang = 2 * math.pi * u01(rng)
+                L = 10.0 ** (-9 + 8 * u01(rng))
+                b = [x + L * math.cos(ang), y + L * math.sin(ang)]
+            elif j == 2:
+                p, q, h = rng.choice(DIRS)
+                x, y = float(rng.range(-20, 20)), float(rng.range(-20, 20))
+                kk = rng.range(1, 30)
+                b = [x + kk * p, y + kk * q]
+            else:
+                b = [-x, -y]
+            cs.append({"op": "dist", "tag": "dist", "a": [x, y] + b})
+        elif fam == 2:
+            l = real_line(rng, m) if rng.chance(1, 2) else lat_line(rng)
+            pt = [co(), co()] if l[0] == "B" and rng.chance(1, 2) else [float(rng.range(-20, 20)), float(rng.range(-20, 20))]
+            cs.append({"op": "ldist", "tag": "ldist", "l1": l, "a": pt})
+        else:
+            l1 = real_line(rng, m) if rng.chance(1, 2) else lat_line(rng)
+            l2 = real_line(rng, m) if rng.chance(1, 2) else lat_line(rng)
+            cs.append({"op": "par", "tag": "par", "l1": l1, "l2": l2})
+    return cs
+
+
+def twins(cases, rng):
+    """the same inputs through the entry points that the intersection routines use internally: parallel for a line pair,
+    Line::dist for a contains query, util::dist for the two centres of a circle pair"""
+    out = []
+    for c in cases:
+        if c["op"] == "ll" and rng.chance(1, 3):
+            out.append({"op": "par", "tag": "par-of-" + c.get("tag", "?"), "l1": c["l1"], "l2": c["l2"]})
+        elif c["op"] == "con" and rng.chance(1, 3):
+            out.append({"op": "ldist", "tag": "ldist-of-" + c.get("tag", "?"), "l1": c["l1"], "a": c["a"]})
+        elif c["op"] == "cc" and rng.chance(1, 30):
+            a = c["a"]
+            out.append({"op": "dist", "tag": "dist-of-cc", "a": [a[0], a[1], a[3], a[4]]})
+    return out
+
+
 def generate(rng, tier):
     quick = tier == "quick"
     cases = []
@@ -514,6 +1030,15 @@ def generate(rng, tier):
     cases += tangency_cases(rng.fork("tan"), 1000 if quick else 8000)
     cases += real_cases(rng.fork("real"), 2500 if quick else 20000)
     cases += near_tangent_cases(rng.fork("near"), 800 if quick else 6000)
+    cases += cc_ratio_cases(rng.fork("ratio"), 200 if quick else 2000)
+    cases += band_cases(rng.fork("band"), 300 if quick else 2400)
+    cases += coincidence_cases(rng.fork("coin"), 150 if quick else 1500)
+    cases += small_cases(rng.fork("small"), 150 if quick else 1500)
+    cases += coefficient_cases(rng.fork("coef"), 240 if quick else 2400)
+    cases += point_op_cases(rng.fork("ptops"), 160 if quick else 1600)
+    cases += twins(cases, rng.fork("twins"))
+    # the circle cases cost the specification several times more than the others: spread them over the batch files
+    rng.fork("order").shuffle(cases)
     return cases
 
 
@@ -558,9 +1083,13 @@ def shrink(c):
 def valid(c):
     """keep shrunk cases inside the quantifier (positive radii, proper lines)"""
     def line_ok(l):
+        if l[0] == "Z":
+            return True
         if l[0] == "B":
             return (l[1], l[2]) != (l[3], l[4])
         return (l[1], l[2]) != (0, 0)
+    if c["op"] == "pt":
+        return c["a"][4] != 0
     if c["op"] == "cc":
         return c["a"][2] >= 0.01 and c["a"][5] >= 0.01
     if c["op"] in ("cl", "pos"):
@@ -586,24 +1115,35 @@ def run_lines(binp, lines):
 
 
 def exact_stats(ctx):
-    """how many sampled cases the binary64 instance of the model reproduces bit for bit (statistics, not a gate)"""
+    """how many sampled cases the binary64 instance of the model reproduces bit for bit (statistics, not a gate);
+    every build profile: a profile whose observations are textually those of the debug build shares its count"""
     import _driver
+    import re
     rng = _driver.Rng(ctx.seed).fork(ID)
     cases = generate(rng, "quick")[::3]
     lines = [harness_line(c) for c in cases]
-    outs = run_lines(ctx.bins["debug"], lines)
-    terms = [coq_term(c, o, "debug") for c, o in zip(cases, outs)]
-    path = os.path.join(ctx.work, "exact_stats.v")
-    with open(path, "w") as f:
-        f.write("From Coq Require Import List ZArith Bool.\nImport ListNotations.\n" + CORR_IMPORT + "\n")
-        f.write("Definition cases : list case := [\n" + ";\n".join(terms) + "\n].\n")
-        f.write("Eval vm_compute in (count_exact cases).\n")
-    rc, out = _driver.coqc(path, ctx.work)
-    import re
-    m = re.search(r"\(\s*(\d+)\s*,\s*(\d+)\s*\)", out)
-    if rc != 0 or not m:
-        return {"error": out[-500:]}
-    return {"bit_for_bit": int(m.group(1)), "of": int(m.group(2))}
+    res = {}
+    first = None
+    for profile in PROFILES:
+        outs = run_lines(ctx.bins[profile], lines)
+        if first is not None and outs == first[1]:
+            res[profile] = "observations identical to %s" % first[0]
+            continue
+        terms = [coq_term(c, o, profile) for c, o in zip(cases, outs)]
+        path = os.path.join(ctx.work, "exact_stats_%s.v" % profile)
+        with open(path, "w") as f:
+            f.write("From Coq Require Import List ZArith Bool.\nImport ListNotations.\n" + CORR_IMPORT + "\n")
+            f.write("Definition cases : list case := [\n" + ";\n".join(terms) + "\n].\n")
+            f.write("Eval vm_compute in (count_exact cases).\n")
+        rc, out = _driver.coqc(path, ctx.work)
+        m = re.search(r"\(\s*(\d+)\s*,\s*(\d+)\s*\)", out)
+        if rc != 0 or not m:
+            res[profile] = {"error": out[-500:]}
+            continue
+        res[profile] = {"bit_for_bit": int(m.group(1)), "of": int(m.group(2))}
+        if first is None:
+            first = (profile, outs)
+    return res
 
 
 def case_of_line(line):
@@ -625,33 +1165,37 @@ def case_of_line(line):
 
 
 def extra(ctx, known):
-    binp = ctx.bins["debug"]
     n = 10 ** 4 if ctx.tier == "quick" else 10 ** 5
     seeds = [ctx.seed * 1000 + i for i in range(1 if ctx.tier == "quick" else 10)]
     violations = []
     cov = {}
-    try:
-        outs = run_lines(binp, ["search %d %d" % (s, n) for s in seeds])
-    except RuntimeError as e:
-        return {"coverage": {"search": "executor failed"},
-                "violations": [{"name": "search-executor", "kind": "broken-correspondence", "nofail": True,
-                                "payload": {"what": "the executor crashed in search mode", "log": str(e)}}]}
     ok = 0
-    for s, o in zip(seeds, outs):
-        t = o.split()
-        if t[0] == "OK":
-            ok += 1
-            cov["search_last"] = o
-        elif len(violations) < 3:
-            line = " ".join(t[2:])
-            nums = [unbits(x) if x.isdigit() else x for x in t[3:]]
-            violations.append({"name": "search-%d" % s, "nofail": False,
-                               "payload": {"what": "implementation-level search: %s" % t[1], "harness_line": line,
-                                           "inputs": nums, "case": case_of_line(line),
-                                           "reproduce": "echo '%s' | harness/target/debug/c10" % line}})
-    cov["search"] = {"configurations": n * len(seeds), "seeds_ok": ok, "seeds": len(seeds),
+    for profile in PROFILES:
+        binp = ctx.bins[profile]
+        try:
+            outs = run_lines(binp, ["search %d %d" % (s, n) for s in seeds])
+        except RuntimeError as e:
+            return {"coverage": {"search": "executor failed"},
+                    "violations": [{"name": "search-executor", "kind": "broken-correspondence", "nofail": True,
+                                    "payload": {"what": "the executor crashed in search mode (%s build)" % profile, "log": str(e)}}]}
+        for s, o in zip(seeds, outs):
+            t = o.split()
+            if t[0] == "OK":
+                ok += 1
+                cov["search_last_%s" % profile] = o
+            elif len(violations) < 3:
+                line = " ".join(t[2:])
+                nums = [unbits(x) if x.isdigit() else x for x in t[3:]]
+                violations.append({"name": "search-%d-%s" % (s, profile), "nofail": False,
+                                   "payload": {"what": "implementation-level search (%s build): %s" % (profile, t[1]),
+                                               "harness_line": line, "inputs": nums, "case": case_of_line(line),
+                                               "reproduce": "echo '%s' | harness/target/%s/c10" % (line, profile)}})
+    cov["search"] = {"configurations": n * len(seeds) * len(PROFILES), "seeds_ok": ok, "seeds": len(seeds) * len(PROFILES),
+                     "profiles": list(PROFILES),
                      "checks": "every returned point within 1e-7 of both primitives (f64 hypot against the defining data); kind vs "
-                               "exact i128 classification on the lattice quarter, vs the 1e-8 margin otherwise (incl. radius ratios up to 1e3:1 at 20..1e4 EPS from a tangency)"}
+                               "exact i128 classification on the lattice quarter, vs the 1e-8 margin otherwise (incl. radius "
+                               "ratios log-uniform up to 1e6:1 at 20..1e4 EPS from a tangency, and clear crossings of a circle "
+                               "of radius 100..1024 with one of radius 2^-10..1, both argument orders)"}
     try:
         cov["model_bit_for_bit"] = exact_stats(ctx)
     except Exception as e:  # statistics only
@@ -662,20 +1206,25 @@ def extra(ctx, known):
 MANIFEST = {
     "text": "Executable Gallina model of rlib_geometry (Point ops, Line::new/between/dist/contains, parallel, "
             "intersect_ll, intersect_cl, intersect_cc, Circle::position), ONE definition polymorphic in the scalar "
-            "operations and in EPS. Theorems (15 pinned, instance R = Coq's real numbers, standard-library real axioms "
+            "operations and in EPS. Theorems (17 pinned, instance R = Coq's real numbers, standard-library real axioms "
             "only): c10_line_new_unit / c10_dist_euclidean (Line::new stores a unit normal, so dist is the Euclidean "
             "distance), c10_between_contains, c10_contains, c10_ll_on_both (non-parallel: the returned point satisfies "
             "both equations) / c10_ll_parallel_none, c10_cl_none / c10_cl_two_points (both points on the line and at "
             "distance exactly r) / c10_cl_tangent (foot of the perpendicular, within EPS of the circle), c10_position, "
             "c10_cc_kinds (kind follows the comparison of the centre distance with r1 +- r2 away from the EPS bands; "
             "crossing points lie on both circles) with c10_cc_swap and c10_touch_points_on_both, and the two repaired "
-            "defects as statements about the old code (c10_old_tangent_refuted, c10_cc_old_crossing). The binary64 "
+            "defects as statements about the old code (c10_old_tangent_refuted, c10_cc_old_crossing), and the crossing branch "
+            "measured from the larger circle (c10_cc_big_crossing: exact over R; c10_cc_big_ratio_refuted: a binary64 witness at "
+            "ratio 1e6:1 rejected by the dyadic specification, the repaired code accepted in both argument orders). The binary64 "
             "instance (Coq primitive floats) is compared with the Rust crate on every run: same kind, coordinates bit for "
             "bit or within 1e-9; a model-independent spec_check in exact dyadic arithmetic decides for every sampled case "
             "that each returned point is within 1e-7 of both primitives and that the kind is the exact kind away from the "
-            "tolerance bands (exact Pythagorean tangencies included). The 1e-7 floating-point bound "
+            "tolerance bands (exact Pythagorean tangencies included); inside the bands (margins 0.3..7 EPS) the binary64 model "
+            "pins the code's answer, i.e. the value of EPS at every comparison. Sampled up to radius ratio 1e6:1, exact "
+            "coincidences, the small end of the quantifier, coefficient-form and literal lines; Line::dist, util::dist, "
+            "util::parallel and the Point operations are compared as entry points of their own. The 1e-7 floating-point bound "
             "(c10_rounding_partial) is NOT proved: it is decided by that exact check and by an implementation-level "
-            "search.",
+            "search (both build profiles).",
     "level_note": "Trusted: Coq kernel + vm_compute incl. primitive floats; the Rust executor and the Python case printer. "
                   "PARTIAL: theorems hold for the real-number instance; rounding is not proved.",
     "technique": "Coq proof over a polymorphic Gallina model (instance R) + vm_compute correspondence of the binary64 instance "
